@@ -1,4 +1,5 @@
 import Adsb.Lemmas.CrcSyn
+import Adsb.Lemmas.CrcWeight
 import Adsb.Lemmas.Reject
 /-! # C03 — the checksum is the Mode S parity syndrome -/
 
@@ -196,6 +197,61 @@ theorem burst24_detected (frame : List Bool) (pre post : Nat) (e : List Bool) (h
   have e0 : (0 : W) ^^^ syndrome (zeros pre ++ e ++ zeros post) = syndrome (zeros pre ++ e ++ zeros post) := BitVec.zero_xor
   rw [e0]
   exact burst_syndrome_ne_zero pre post e he hne
+
+/-! ## (d) up to five bit flips -/
+
+/-- **the syndrome of an error pattern with 1 to 5 set bits in at most 112 positions is never 0** (the parity code has
+minimum distance ≥ 6 on 112-bit frames): odd weights by `g(1) = 0`, weights 2 and 4 because the 6329 sums of at most two
+of the residues `x^0 … x^111 mod g` are pairwise different (kernel computation `vals_strict`) -/
+theorem weight5_syndrome_ne_zero (err : List Bool) (hlen : err.length ≤ 112) (hw1 : 1 ≤ weight err) (hw5 : weight err ≤ 5) :
+    syndrome err ≠ 0 := by
+  rw [syndrome_positions]
+  exact xorAt_ne_zero (posOf err) (posOf_desc err) (fun k hk => Nat.lt_of_lt_of_le (posOf_lt err k hk) hlen) hw1 hw5
+
+/-- **(d) no corruption of a valid squitter by up to five bit flips is reported with checksum 0**: for a frame of at most
+112 bits with syndrome 0 and an error pattern of the same length with 1 to 5 set bits, the corrupted frame's syndrome
+is not 0.  With `decoded_crc_is_syndrome` this is a statement about `Frame.crc` of the corrupted squitter. -/
+theorem weight5_detected (frame err : List Bool) (hlen : frame.length = err.length) (h112 : err.length ≤ 112)
+    (hw1 : 1 ≤ weight err) (hw5 : weight err ≤ 5) (hvalid : syndrome frame = 0) :
+    syndrome (List.zipWith (· != ·) frame err) ≠ 0 := by
+  rw [syndrome_xor frame err hlen, hvalid]
+  have e0 : (0 : W) ^^^ syndrome err = syndrome err := BitVec.zero_xor
+  rw [e0]
+  exact weight5_syndrome_ne_zero err h112 hw1 hw5
+
+/-- **(d), at the level of `Frame.crc`**: a 14-byte buffer that decodes with checksum 0, corrupted in 1 to 5 bit positions
+into a buffer that is still decoded as a 112-bit format, is never reported with checksum 0.  (A corruption that clears the
+first format bit turns the buffer into a 56-bit format, which is not an extended squitter: `frame_lengths`.) -/
+theorem corrupted_squitter_crc_ne_zero (B B' : Buf) (f f' : Frame) (hB : B.bytes.length = 14) (hB' : B'.bytes.length = 14)
+    (hd : decode B = .ok f) (hd' : decode B' = .ok f') (hlong : frameLen (bitsAt B 0 5) = some 14)
+    (hlong' : frameLen (bitsAt B' 0 5) = some 14) (hcrc : f.crc = 0)
+    (err : List Bool) (herr : bitsOf B'.bytes = List.zipWith (· != ·) (bitsOf B.bytes) err) (hel : err.length = 112)
+    (hw1 : 1 ≤ weight err) (hw5 : weight err ≤ 5) : f'.crc ≠ 0 := by
+  obtain ⟨L, hL, _, hc⟩ := decoded_crc_is_syndrome B f hd
+  obtain ⟨L', hL', _, hc'⟩ := decoded_crc_is_syndrome B' f' hd'
+  rw [hlong] at hL; rw [hlong'] at hL'
+  cases hL; cases hL'
+  have t1 : B.bytes.take 14 = B.bytes := List.take_of_length_le (by omega)
+  have t2 : B'.bytes.take 14 = B'.bytes := List.take_of_length_le (by omega)
+  rw [t1] at hc; rw [t2] at hc'
+  have hgen : ∀ l : List UInt8, (bitsOf l).length = 8 * l.length := by
+    intro l
+    induction l with
+    | nil => rfl
+    | cons b t ih =>
+      have : bitsOf (b :: t) = byteBits b ++ bitsOf t := by simp [bitsOf]
+      rw [this, List.length_append, ih, byteBits_length, List.length_cons]; omega
+  have hbl : (bitsOf B.bytes).length = 112 := by rw [hgen, hB]
+  have hs : syndrome (bitsOf B.bytes) = 0 := by
+    apply BitVec.eq_of_toNat_eq; rw [← hc, hcrc]; rfl
+  have := weight5_detected (bitsOf B.bytes) err (by rw [hbl, hel]) (by omega) hw1 hw5 hs
+  rw [← herr] at this
+  intro h0
+  apply this
+  apply BitVec.eq_of_toNat_eq; rw [← hc', h0]; rfl
+
+/-- non-vacuity: an error pattern of weight 5 -/
+example : weight [true, false, true, true, false, true, true] = 5 := by decide
 
 /-! ## non-vacuity (tests): the README frame is a valid squitter -/
 example : crcVal [0x8d, 0xa2, 0xc1, 0xbd, 0x58, 0x7b, 0xa2, 0xad, 0xb3, 0x17, 0x99, 0xcb, 0x80, 0x2b] 14 = 0 := by decide +kernel
